@@ -38,6 +38,9 @@ pub struct Cfg {
     pub weight_mode: WeightMode,
     /// clock start, nanoseconds after BASE_SECS
     pub start_ns: u64,
+    /// background threads hammering reads of dedicated (saturated) keys for the whole case: keeps the access consumer busy
+    #[serde(default)]
+    pub noise_readers: u8,
 }
 
 impl Cfg {
@@ -195,6 +198,7 @@ pub struct GenParams {
     /// relative frequencies: put, upsert, delete, read, readall, touch, advance, rotation, stall, deadline walk
     pub mix: [u32; 10],
     pub max_key: u8,
+    pub noise_readers: Vec<u8>,
 }
 
 impl GenParams {
@@ -214,6 +218,7 @@ impl GenParams {
             stall: true,
             mix: [30, 20, 12, 20, 3, 6, 12, 2, 8, 3],
             max_key: 8,
+            noise_readers: vec![0],
         }
     }
 }
@@ -356,10 +361,16 @@ pub fn cfg_strategy(params: &GenParams) -> BoxedStrategy<Cfg> {
         hash,
         weight_mode,
         start_ns: start_s * 1_000_000_000 + start_n,
+        noise_readers: 0,
     }).boxed()
 }
 
 pub fn seq_case_strategy(params: &GenParams) -> BoxedStrategy<SeqCase> {
-    (cfg_strategy(params), prop::collection::vec(op_strategy(params), 1..=params.max_ops))
-        .prop_map(|(cfg, ops)| SeqCase { cfg, ops }).boxed()
+    (cfg_strategy(params), pick(&params.noise_readers), prop::collection::vec(op_strategy(params), 1..=params.max_ops))
+        .prop_map(|(mut cfg, noise_readers, ops)| {
+            cfg.noise_readers = noise_readers;
+            // one pool buffer: the harness can flush its own buffered access records deterministically (see pre_read_estimates)
+            if noise_readers > 0 { cfg.pool = 1; }
+            SeqCase { cfg, ops }
+        }).boxed()
 }
